@@ -1,5 +1,6 @@
 import LdkModel.Driver.Util
 import LdkModel.Model.Forward
+import LdkModel.Model.ForwardClose
 namespace Ldk.Driver
 open Ldk Ldk.Forward
 
@@ -43,6 +44,31 @@ def c02hop : Drv where
       match releaseIntercepted (.intercepted (nat! i) (nat! e) (nat! x)) (nat! amt) with
       | some (a, c) => ((), s!"offer {a} {c}")
       | none => ((), "offer -")
+    | _ => ((), "bad-op")
+
+/-- `fc <seen: hc|la|committed|rm-ok|rm-fail> <heldExists> <sent> <cHas> <bHas> <observed: drop|keep>`: one forwarded HTLC on the
+    outbound channel at the instant the forwarding node force-closes it.  The answer validates the observation against the
+    generated selection of `force_shutdown` and the model's invariant: `ok`, or what the model allows. -/
+def c02close : Drv where
+  σ := Unit
+  init := ()
+  step := fun _ ws =>
+    let b (w : String) : Bool := w == "1"
+    -- tokens starting with `@` are case tags (scenario / position), not part of the op
+    let ws := ws.filter (fun w => !w.startsWith "@")
+    match ws with
+    | ["fc", seen, held, sent, cHas, bHas, observed] =>
+      let v? : Option FwdClose.Seen := match seen with
+        | "hc" => some .holdingCell | "la" => some .awaitingRemoteRevokeToAdd | "committed" => some .committed
+        | "rm-ok" => some (.removing true) | "rm-fail" => some (.removing false) | _ => none
+      match v? with
+      | none => ((), "bad-op")
+      | some v =>
+        let allowed := v.decisions (b held)
+        let okDecision := allowed.contains (observed == "drop")
+        let okObs := v.consistent (b sent) (b cHas) (b bHas)
+        if okDecision && okObs then ((), "ok")
+        else ((), s!"MISMATCH allowed={allowed.map (fun d => if d then "drop" else "keep")} observation-consistent={okObs}")
     | _ => ((), "bad-op")
 
 structure FwdSt where
